@@ -36,6 +36,17 @@ func (e *Eval) scanLinesLoop(fr *frame, h *ssa.BasicBlock, body map[*ssa.BasicBl
 	if !body[cont] || body[exit] {
 		return false
 	}
+	// the loop is left at its header only (no break, no return from inside)
+	for b := range body {
+		if b == h {
+			continue
+		}
+		for _, sc := range b.Succs {
+			if !body[sc] {
+				return false
+			}
+		}
+	}
 	scv := scan.Call.Args[0]
 	sv, ok := e.val(fr, scv).(ResV)
 	if !ok || sv.Kind != "bufio.Scanner" || sv.O == nil {
@@ -647,6 +658,17 @@ func (e *Eval) quoteItemsLoop(fr *frame, h *ssa.BasicBlock, body map[*ssa.BasicB
 	if nq != 1 || squeeze(text) != "Q," {
 		return false
 	}
+	// the loop is left at its header only (no break, no return from inside)
+	for b := range body {
+		if b == h {
+			continue
+		}
+		for _, sc := range b.Succs {
+			if !body[sc] {
+				return false
+			}
+		}
+	}
 	// the optional filter: the writes happen exactly where the word is not empty
 	skip := false
 	nIf := 0
@@ -734,6 +756,261 @@ func (e *Eval) quoteItemsLoop(fr *frame, h *ssa.BasicBlock, body map[*ssa.BasicB
 	e.event("P5", Discharged, ifi, "loop in %s writes one quoted word per element of the token slice: it ends with the slice", fr.fn.Name())
 	e.Loops = append(e.Loops, LoopInfo{Fn: fr.fn, Header: h, T: -1, IV: "quoted items"})
 	e.setEdgeRaw(fr, h, exit, st)
+	fr.afterLp[exit] = true
+	return true
+}
+
+// filterNonEmptyLoop recognises, in the generator,
+//
+//	for _, line := range lines { if line != "" { words = append(words, line) } }
+//
+// with lines the result of the tokeniser (strings.Split) and words empty before the loop: words
+// is then the non-empty tokens, in order (TokensV.NonEmpty).
+func (e *Eval) filterNonEmptyLoop(fr *frame, h *ssa.BasicBlock, body map[*ssa.BasicBlock]bool, in State, done map[*ssa.BasicBlock]bool) bool {
+	if len(h.Succs) != 2 || len(e.activeLoops) > 0 || e.P == nil || e.P.Gen == nil {
+		return false
+	}
+	if fn := h.Parent(); fn.Pkg != e.P.Gen && (fn.Parent() == nil || fn.Parent().Pkg != e.P.Gen) {
+		return false
+	}
+	ifi, ok := h.Instrs[len(h.Instrs)-1].(*ssa.If)
+	if !ok {
+		return false
+	}
+	cont, exit := h.Succs[0], h.Succs[1]
+	if !body[cont] || body[exit] {
+		return false
+	}
+	var iphi, acc *ssa.Phi
+	var inc *ssa.BinOp
+	for _, ins := range h.Instrs {
+		switch x := ins.(type) {
+		case *ssa.Phi:
+			if isStringSlice(x.Type()) {
+				if acc != nil {
+					return false
+				}
+				acc = x
+			} else {
+				if iphi != nil {
+					return false
+				}
+				iphi = x
+			}
+		case *ssa.BinOp:
+			if x.Op == token.ADD {
+				inc = x
+			}
+		case *ssa.DebugRef, *ssa.If, *ssa.Call:
+		default:
+			return false
+		}
+	}
+	cmp, ok := ifi.Cond.(*ssa.BinOp)
+	if !ok || cmp.Op != token.LSS || iphi == nil || acc == nil || inc == nil || cmp.X != ssa.Value(inc) || inc.X != ssa.Value(iphi) {
+		return false
+	}
+	if k, ok := intConst(inc.Y); !ok || k != 1 {
+		return false
+	}
+	for i, p := range h.Preds {
+		if body[p] {
+			if iphi.Edges[i] != ssa.Value(inc) {
+				return false
+			}
+		} else if k, ok := intConst(iphi.Edges[i]); !ok || k != -1 {
+			return false
+		}
+	}
+	ln, ok := cmp.Y.(*ssa.Call)
+	if !ok || !isBuiltinCall(ln, "len") {
+		return false
+	}
+	lines := ln.Call.Args[0]
+	toks, ok := e.val(fr, lines).(*TokensV)
+	if !ok || toks == nil || toks.Fn != "strings.Split" || toks.NonEmpty {
+		return false
+	}
+	var word ssa.Value
+	var test *ssa.BinOp
+	var app *ssa.Call
+	var arr *ssa.Alloc
+	for b := range body {
+		if b == h {
+			continue
+		}
+		for _, ins := range b.Instrs {
+			switch x := ins.(type) {
+			case *ssa.DebugRef, *ssa.Jump, *ssa.If, *ssa.Phi, *ssa.Slice, *ssa.Store:
+			case *ssa.IndexAddr:
+				if x.X == lines && x.Index != ssa.Value(inc) {
+					return false
+				}
+			case *ssa.UnOp:
+				if ia, ok := x.X.(*ssa.IndexAddr); ok && x.Op == token.MUL && ia.X == lines {
+					if word != nil {
+						return false
+					}
+					word = x
+				} else {
+					return false
+				}
+			case *ssa.BinOp:
+				if test != nil || (x.Op != token.EQL && x.Op != token.NEQ) {
+					return false
+				}
+				test = x
+			case *ssa.Alloc:
+				if arr != nil {
+					return false
+				}
+				arr = x
+			case *ssa.Call:
+				if !isBuiltinCall(x, "append") || app != nil {
+					return false
+				}
+				app = x
+			default:
+				return false
+			}
+		}
+	}
+	if word == nil || test == nil || app == nil || arr == nil || len(app.Call.Args) != 2 || app.Call.Args[0] != ssa.Value(acc) {
+		return false
+	}
+	// append(acc, word): the variadic array holds the word alone
+	sl, ok := app.Call.Args[1].(*ssa.Slice)
+	if !ok || sl.X != ssa.Value(arr) {
+		return false
+	}
+	if at, ok := arr.Type().Underlying().(*types.Pointer).Elem().Underlying().(*types.Array); !ok || at.Len() != 1 {
+		return false
+	}
+	nStores := 0
+	for _, ref := range *arr.Referrers() {
+		switch x := ref.(type) {
+		case *ssa.IndexAddr:
+			for _, r2 := range *x.Referrers() {
+				st, ok := r2.(*ssa.Store)
+				if !ok || st.Val != word {
+					return false
+				}
+				nStores++
+			}
+		case *ssa.Slice:
+			if x != sl {
+				return false
+			}
+		case *ssa.DebugRef:
+		default:
+			return false
+		}
+	}
+	if nStores != 1 {
+		return false
+	}
+	// the test: word != "" guards exactly the append
+	other := test.Y
+	if other == word {
+		other = test.X
+	} else if test.X != word {
+		return false
+	}
+	if s, isC := strConst(other); !isC || s != "" {
+		return false
+	}
+	var br *ssa.If
+	nIf := 0
+	for b := range body {
+		if b == h {
+			continue
+		}
+		if i, isIf := b.Instrs[len(b.Instrs)-1].(*ssa.If); isIf {
+			nIf++
+			if i.Cond == ssa.Value(test) {
+				br = i
+			}
+		}
+	}
+	if br == nil || nIf != 1 {
+		return false
+	}
+	// the loop is left at its header only (an empty line skipped with `break` ends the list there)
+	for b := range body {
+		if b == h {
+			continue
+		}
+		for _, sc := range b.Succs {
+			if !body[sc] {
+				return false
+			}
+		}
+	}
+	nonEmpty := br.Block().Succs[0]
+	if test.Op == token.EQL {
+		nonEmpty = br.Block().Succs[1]
+	}
+	if len(nonEmpty.Preds) != 1 || !nonEmpty.Dominates(app.Block()) {
+		return false
+	}
+	// the accumulator: empty before the loop; round the loop either the append or itself
+	for i, edge := range acc.Edges {
+		if !body[h.Preds[i]] {
+			switch v := e.val(fr, edge).(type) {
+			case NilV:
+			case SliceV:
+				ac, ok := in[v.O].(*ArrC)
+				if !ok || ac.Top != "" {
+					return false
+				}
+				if n, ok := ac.N.Const(); !ok || n != 0 {
+					return false
+				}
+			default:
+				return false
+			}
+			continue
+		}
+		if edge == ssa.Value(app) || edge == ssa.Value(acc) {
+			continue
+		}
+		phi, ok := edge.(*ssa.Phi)
+		if !ok {
+			return false
+		}
+		for _, pe := range phi.Edges {
+			if pe != ssa.Value(app) && pe != ssa.Value(acc) {
+				return false
+			}
+		}
+	}
+	// nothing defined in the loop is used after it, except the accumulator
+	for b := range body {
+		for _, ins := range b.Instrs {
+			v, ok := ins.(ssa.Value)
+			if !ok || v == ssa.Value(acc) || v.Referrers() == nil {
+				continue
+			}
+			for _, ref := range *v.Referrers() {
+				if _, dbg := ref.(*ssa.DebugRef); dbg {
+					continue
+				}
+				if !body[ref.Block()] {
+					return false
+				}
+			}
+		}
+	}
+	for b := range body {
+		done[b] = true
+	}
+	nt := *toks
+	nt.NonEmpty = true
+	nt.N = RangeInt(0, 1<<31)
+	fr.env[acc] = &nt
+	e.event("P5", Discharged, ifi, "loop in %s keeps the non-empty elements of the token slice: it ends with the slice", fr.fn.Name())
+	e.Loops = append(e.Loops, LoopInfo{Fn: fr.fn, Header: h, T: -1, IV: "non-empty tokens"})
+	e.setEdgeRaw(fr, h, exit, in.clone())
 	fr.afterLp[exit] = true
 	return true
 }
